@@ -105,10 +105,13 @@ def run_job(job, scratch, timeout=180, hashseed=None):
     with open(jobpath, 'w') as fh:
         json.dump(job, fh)
     cmd = setarch_prefix() + [PY, '-m', 'sim.worker', jobpath]
+    env = worker_env(hs, scratch)
+    if (job.get('mode') or {}).get('malloc'):
+        env['PYTHONMALLOC'] = 'malloc'
     t0 = time.time()
     try:
         try:
-            r = subprocess.run(cmd, stdin=subprocess.DEVNULL, env=worker_env(hs, scratch),
+            r = subprocess.run(cmd, stdin=subprocess.DEVNULL, env=env,
                                stdout=subprocess.DEVNULL, stderr=subprocess.PIPE, text=True,
                                errors='replace', timeout=timeout + 30, cwd='/')
         except subprocess.TimeoutExpired:
